@@ -191,8 +191,14 @@ def run(ctx, cell):
     bigs = [vstr("x" * 60), vlist([vint(i) for i in range(30)]), vstr("short")]
     env["big"] = bigs[ctx.choice("big", len(bigs))]
     for i in range(1, g.ncatch + 1):
-        # catch values: same kind as the error value so that both matching and non-matching occur
-        cv = mkev(ctx, "cv%d" % i, evk)
+        # catch values: same kind as the error value so that both matching and non-matching occur;
+        # for int errors the first catch value is the decimal of a symbolic int (1 == 1.0 selects the handler)
+        if evk == "int" and i == 1:
+            from symex.shims import sym_float
+            from harness.common import vdec
+            cv = vdec(sym_float(ctx.int("cv%d" % i, -3, 3)))
+        else:
+            cv = mkev(ctx, "cv%d" % i, evk)
         vals["cv%d" % i] = cv
         env["cv%d" % i] = cv
     text = tdsl.render(prog)
